@@ -208,4 +208,24 @@ theorem replaceWith_ne_nil (pairs : List (UInt8 × Bytes)) (hv : ∀ p ∈ pairs
       intro h'; exact this (List.append_eq_nil_iff.1 h').1
     | none => simp
 
+/-- the regenerated tables of one module generation -/
+structure Tables where
+  pathSafe : List UInt8
+  querySafe : List UInt8
+  headerEscapes : List (UInt8 × Bytes)
+
+def tablesV2 : Tables := ⟨Gen.pathSafe, Gen.querySafe, Gen.headerEscapes⟩
+def tablesRoot : Tables := ⟨GenRoot.pathSafe, GenRoot.querySafe, GenRoot.headerEscapes⟩
+
+/-- the side conditions the round trip needs, as one decidable predicate over the tables -/
+def TablesOk (t : Tables) : Prop :=
+  t.pathSafe.contains 37 = false ∧ t.querySafe.contains 37 = false ∧ t.querySafe.contains 43 = false ∧
+  (∀ r ∈ reserved, t.pathSafe.contains r = false) ∧ (∀ r ∈ reserved, t.querySafe.contains r = false) ∧
+  (∀ p ∈ t.headerEscapes, goodPair p = true) ∧ (t.headerEscapes.lookup 37).isSome = true ∧
+  (∀ r ∈ reserved, (t.headerEscapes.lookup r).isSome = true) ∧
+  (∀ p ∈ t.headerEscapes, ∀ c ∈ p.2, c ∉ reserved) ∧ (∀ p ∈ t.headerEscapes, p.2 ≠ [])
+
+instance (t : Tables) : Decidable (TablesOk t) := by unfold TablesOk; infer_instance
+
+
 end Restli.Escape
